@@ -8,7 +8,7 @@ no trace for a lone continuation record, tables updated with the text, enclosing
 """
 import re
 
-from vlib import core, ev, wire, domain, histories as H
+from vlib import stream, core, ev, wire, domain, histories as H
 
 LEVEL = 'exploration'
 RULE = ('texts = every byte length 0..184 (lookups) / 0..200 (global strings) / 0..63 (thread names) x {ASCII, multi-byte '
@@ -87,7 +87,7 @@ def quoted(text):
 # lookups
 # ---------------------------------------------------------------------------------------------
 
-def check_lookup_history(res, events, expected, label, enclosing=None, arity=None):
+def check_lookup_history(res, events, expected, label, enclosing=None, arity=None, rng=None):
     """expected: [(text str, vnode id)] in lookup order."""
     parser, traces, exc = collect(events)
     res.case(tuple((e.debugid, e.data, e.tid) for e in events))
@@ -106,6 +106,21 @@ def check_lookup_history(res, events, expected, label, enclosing=None, arity=Non
                       f'({len(got)} vs {len(expected)})', case_of(events))
         return
     res.count('lookups_compared', len(expected))
+    if rng is not None and events and rng.random() < 0.15:
+        # the same records read from a dump by the public front end (both container versions)
+        kind = rng.choice(('v2', 'v3'))
+        try:
+            data, ft = stream.traces_via_file(events, kind, rng)
+            fgot = [(t.path, t.vnode_id) for t in ft if type(t).__name__ == 'VfsLookup']
+        except Exception as x:
+            res.violation(f'c08-file-raises-{core.exc_name(x)}', f'{label} through a {kind} dump: {x!r}', case_of(events))
+            return
+        res.count('lookup_histories_through_a_dump')
+        if fgot != expected or [str(t) for t in ft] != [str(t) for _, t in traces]:
+            res.violation(f'c08-differs-through-{kind}-dump', f'{label}: lookups {fgot[:4]} / {len(ft)} traces when the records '
+                          f'are read from a {kind} dump by the front end, {expected[:4]} / {len(traces)} when fed directly',
+                          dict(case_of(events), file=data))
+            return
     if enclosing:
         outer = [t for _, t in traces if type(t).__name__ != 'VfsLookup' and t.ktraces and
                  ev.bundled_codes().get(t.ktraces[0].eventid) == enclosing]
@@ -165,6 +180,11 @@ def discover_path_decoders(res):
     return found
 
 
+# vnode ids are kernel pointers; the first word of a lookup's first record is the id whatever its value
+VNODE_ID_BOUNDARIES = (0, 1, 0xff, (1 << 31) - 1, 1 << 31, (1 << 32) - 1, 1 << 32, 1 << 63, (1 << 64) - 1, 0xffffff8012345678,
+                       0x2f2f2f2f2f2f2f2f, 0x0000000100000000)
+
+
 def lookup_workload(res, ctx, rng, arities):
     lengths = list(range(0, 185))
     names = sorted(arities)
@@ -175,7 +195,9 @@ def lookup_workload(res, ctx, rng, arities):
             if not ctx.mine(idx):
                 continue
             text = ascii_text(L, 1) if cls == 'ascii' else straddling_text(L, 24)
-            vn = 0x1000 + L
+            vn = 0x1000 + L if (L + (cls == 'ascii')) % 3 else VNODE_ID_BOUNDARIES[(L // 3) % len(VNODE_ID_BOUNDARIES)]
+            if vn in VNODE_ID_BOUNDARIES:
+                res.count('lookups_with_boundary_vnode_id')
             # (a) stand-alone
             seq = H.lookup(vn, text)
             check_lookup_history(res, H.materialize(H.on_thread(7, seq)), [(text.decode(), vn)], f'stand-alone {cls} {L}B')
@@ -185,7 +207,7 @@ def lookup_workload(res, ctx, rng, arities):
                 mixed.append(a)
                 mixed += H.unrelated(rng, rng.randrange(0, 3))
             check_lookup_history(res, H.materialize(H.on_thread(7, mixed)), [(text.decode(), vn)],
-                                 f'unrelated records between chunks {cls} {L}B')
+                                 f'unrelated records between chunks {cls} {L}B', rng=rng)
             res.count('chunks_' + str(min(len(seq), 6)))
             # (b) inside path-taking syscalls (rotating over all discovered decoders), (d) 1..6 lookups
             for rep in range(ctx.pick(2, 40)):
@@ -198,11 +220,12 @@ def lookup_workload(res, ctx, rng, arities):
                 for j, t in enumerate(texts):
                     if rng.random() < 0.3:
                         nested += H.unrelated(rng, 1)
-                    nested += H.lookup(0x2000 + j, t)
-                    expected.append((t.decode(), 0x2000 + j))
+                    vj = 0x2000 + j if rng.random() < 0.7 else rng.choice(VNODE_ID_BOUNDARIES)
+                    nested += H.lookup(vj, t)
+                    expected.append((t.decode(), vj))
                 seq2 = H.gen_syscall(rng, name, nested)
                 check_lookup_history(res, H.materialize(H.on_thread(7, seq2)), expected,
-                                     f'{name} with {n} lookups ({cls} {L}B)', enclosing=name, arity=arities[name])
+                                     f'{name} with {n} lookups ({cls} {L}B)', enclosing=name, arity=arities[name], rng=rng)
                 res.count(f'lookups_per_window_{n}')
 
 
@@ -229,7 +252,8 @@ def string_workload(res, ctx, rng):
             if not ctx.mine(idx):
                 continue
             text = ascii_text(L, 3) if cls == 'ascii' else straddling_text(L, 16)
-            sid = 500 + L
+            # string ids are addresses of the kernel's string table entries; boundary values included
+            sid = 500 + L if (L + (cls == 'ascii')) % 3 else VNODE_ID_BOUNDARIES[(L // 3) % len(VNODE_ID_BOUNDARIES)]
             for mixed in (False, True):
                 seq = []
                 for a in H.global_string(sid, text):
@@ -388,6 +412,8 @@ def run(ctx):
     res.require('names_compared', 10)
     res.require('enclosing_calls_compared', 10)
     res.require('reuse_rounds', 10)
+    res.require('lookup_histories_through_a_dump', 10)
+    res.require('lookups_with_boundary_vnode_id', 10)
     return res
 
 
